@@ -110,6 +110,11 @@ pub trait Subject: Send + Sync {
     fn size_of(&self) -> usize;
     /// Build via `route` inside canary-filled storage, snapshot, drop in place, snapshot.
     fn zprobe(&self, key: &[u8], route: Route, canary: u8) -> Option<ZProbe>;
+    /// Is the storage byte at `off` of an instance built via `route` *live*: does flipping its lowest bit change any
+    /// observable behaviour (encrypt/decrypt of 64 probe blocks, Debug text)?  None if the route is unavailable.
+    fn live_byte(&self, _key: &[u8], _route: Route, _off: usize) -> Option<bool> {
+        None
+    }
     /// Subjects built from an encrypt-only sibling (name of the Enc subject) – AES / Kuznyechik.
     fn enc_sibling(&self) -> Option<&'static str> {
         None
@@ -426,6 +431,56 @@ where
     fn wrap(&self, t: T) -> Box<dyn Inst> {
         Box::new(Wrap { t, e: self.e, d: self.d, c: self.c, g: self.g })
     }
+    /// Build a value through a construction route (None: route not available for this subject / key).
+    pub fn build_route(&self, key: &[u8], route: Route) -> Option<T> {
+        let c = self.c;
+        match route {
+            Route::New => {
+                if key.len() != T::KeySize::USIZE {
+                    return None;
+                }
+                Some(T::new(&key_of::<T>(key)))
+            }
+            Route::FromSlice => T::new_from_slice(key).ok(),
+            Route::Clone => {
+                let orig = T::new_from_slice(key).ok()?;
+                c.try_clone(&orig)
+            }
+            Route::CloneOfClone => {
+                let orig = T::new_from_slice(key).ok()?;
+                let c1 = c.try_clone(&orig)?;
+                c.try_clone(&c1)
+            }
+            Route::CloneDropOrig => {
+                let orig = T::new_from_slice(key).ok()?;
+                let cl = c.try_clone(&orig)?;
+                drop(orig);
+                Some(cl)
+            }
+            Route::FromEncVal => {
+                let (_, by_val, _) = self.conv?;
+                if key.len() != T::KeySize::USIZE {
+                    return None;
+                }
+                Some(by_val(key))
+            }
+            Route::FromEncRef => {
+                let (_, _, by_ref) = self.conv?;
+                if key.len() != T::KeySize::USIZE {
+                    return None;
+                }
+                Some(by_ref(key))
+            }
+            Route::CloneOfConverted => {
+                let (_, _, by_ref) = self.conv?;
+                if key.len() != T::KeySize::USIZE {
+                    return None;
+                }
+                let conv = by_ref(key);
+                c.try_clone(&conv)
+            }
+        }
+    }
 }
 
 impl<T> Subject for Gen<T>
@@ -472,50 +527,45 @@ where
         std::mem::size_of::<T>()
     }
     fn zprobe(&self, key: &[u8], route: Route, canary: u8) -> Option<ZProbe> {
-        let c = self.c;
-        match route {
-            Route::New => {
-                if key.len() != T::KeySize::USIZE {
-                    return None;
-                }
-                let k = key_of::<T>(key);
-                Some(zprobe_with(canary, || T::new(&k)))
-            }
-            Route::FromSlice => Some(zprobe_with(canary, || T::new_from_slice(key).expect("accepted key"))),
-            Route::Clone => {
-                let orig = T::new_from_slice(key).ok()?;
-                c.try_clone(&orig)?;
-                Some(zprobe_with(canary, || c.try_clone(&orig).unwrap()))
-            }
-            Route::CloneOfClone => {
-                let orig = T::new_from_slice(key).ok()?;
-                let c1 = c.try_clone(&orig)?;
-                Some(zprobe_with(canary, || c.try_clone(&c1).unwrap()))
-            }
-            Route::CloneDropOrig => {
-                let orig = T::new_from_slice(key).ok()?;
-                c.try_clone(&orig)?;
-                Some(zprobe_with(canary, || {
-                    let cl = c.try_clone(&orig).unwrap();
-                    drop(orig);
-                    cl
-                }))
-            }
-            Route::FromEncVal => {
-                let (_, by_val, _) = self.conv?;
-                Some(zprobe_with(canary, || by_val(key)))
-            }
-            Route::FromEncRef => {
-                let (_, _, by_ref) = self.conv?;
-                Some(zprobe_with(canary, || by_ref(key)))
-            }
-            Route::CloneOfConverted => {
-                let (_, _, by_ref) = self.conv?;
-                let conv = by_ref(key);
-                c.try_clone(&conv)?;
-                Some(zprobe_with(canary, || c.try_clone(&conv).unwrap()))
-            }
+        // availability check first (so that `make` below cannot fail)
+        drop(self.build_route(key, route)?);
+        Some(zprobe_with(canary, || self.build_route(key, route).unwrap()))
+    }
+    fn live_byte(&self, key: &[u8], route: Route, off: usize) -> Option<bool> {
+        let t = self.build_route(key, route)?;
+        let mut w = Wrap { t, e: self.e, d: self.d, c: self.c, g: self.g };
+        if off >= std::mem::size_of::<T>() {
+            return Some(false);
         }
+        let caps = self.caps;
+        let observe = |w: &Wrap<T>| -> Vec<u8> {
+            let bs = T::BlockSize::USIZE;
+            let data: Vec<u8> = (0..64).flat_map(|j| crate::alphabet::dense(bs, 61, j as u64)).collect();
+            let mut out = Vec::new();
+            if caps.enc {
+                let mut d = data.clone();
+                w.blocks(Dir::Enc, &mut d);
+                out.extend(d);
+            }
+            if caps.dec {
+                let mut d = data.clone();
+                w.blocks(Dir::Dec, &mut d);
+                out.extend(d);
+            }
+            if let Some(t) = w.debug() {
+                out.extend(t.into_bytes());
+            }
+            out
+        };
+        let before = observe(&w);
+        let p = (&mut w.t as *mut T as *mut u8).wrapping_add(off);
+        unsafe { p.write_volatile(p.read_volatile() ^ 1) };
+        let after = std::panic::catch_unwind(std::panic::AssertUnwindSafe(|| observe(&w)));
+        unsafe { p.write_volatile(p.read_volatile() ^ 1) };
+        Some(match after {
+            Ok(a) => a != before,
+            Err(_) => true,
+        })
     }
     fn enc_sibling(&self) -> Option<&'static str> {
         self.conv.map(|c| c.0)
